@@ -44,9 +44,24 @@ def r1_inert_handlers(ctx, rule='C09.R1'):
         execs = f.calls_to('des::net::runtime::unwind::Harness::exec')
         ups = [s for s in f.calls() if s.name.endswith('Processor::incoming_upstream')]
         ctx.floor('harness executions in %s' % short(key), len(execs), floor)
+        by_callers = None
         for s in execs + ups:
             atoms = [a for _, a in f.guard_atoms(s.b)]
-            ctx.check(any(_active_atom(a, True, ctx.P) for a in atoms), 'guard:%s' % key.split('::')[-1],
+            ok = any(_active_atom(a, True, ctx.P) for a in atoms)
+            if not ok:
+                # the test hoisted into the callers: every call of this (non-public) entry point is made under `active == true` of the
+                # very module it is called on, and the function is not used as a value anywhere
+                if by_callers is None:
+                    sites = ctx.P.call_sites_of(key)
+                    users = ctx.P.callers_of(key)
+                    by_callers = bool(sites) and users <= {c.fn.key for c in sites} and f.vis != 'public'
+                    for c in sites:
+                        recv = canon(strip_refs(peel(c.fn.expr_operand(c.args[0], c.b, 'T')))) if c.args else None
+                        cat = [a for _, a in c.fn.guard_atoms(c.b) if _active_atom(a, True, ctx.P)]
+                        same = any(any(canon(strip_refs(peel(x))) == recv for x in walk(a[1])) for a in cat)
+                        by_callers = by_callers and bool(cat) and same
+                ok = by_callers
+            ctx.check(ok, 'guard:%s' % key.split('::')[-1],
                       '%s: no user code / processing element runs unless the module is active' % short(key), s.where(), [show_atom(a) for a in atoms][:4])
 
 
